@@ -7,15 +7,18 @@ Property theorems only (lemmas: `PngVerif/Proofs/FramingLogic.lean`), about the 
 (`Model/Framing.lean`, `stream.rs:891-925`) for an ARBITRARY `cfg : Cfg` (so for any CRC function, in
 particular the real CRC-32) and ARBITRARY decoder values.
 
-* `crc_mismatch_fatal`, `crc_mismatch_skipped`, `crc_match_accepted`: the three outcomes of the comparison.
+* `crc_mismatch_outcome`, `crc_mismatch_fatal`, `crc_mismatch_animation_fatal`, `crc_mismatch_skipped`,
+  `crc_match_accepted`: the outcomes of the comparison.  `Skippable t` = ancillary and none of acTL / fcTL / fdAT
+  (since d89703f the animation chunks are never skipped); `crc_skip_domain` says exactly which kinds are.
 * `crc_covers_type_and_data`: what is compared — the invariant `CrcInv` (running CRC = type bytes ++
   body collected so far; for data chunks type bytes ++ sequence-number bytes ++ the bytes fed to the
   inflater from this chunk) holds along every run from a new decoder.
-* `crc_bad_chunk_inert_partial`: a bad CRC in a critical chunk (any options) or in any buffered chunk
-  with `skip_ancillary_crc_failures = false` ends the run with `CrcMismatch` and poisons the decoder.
+* `crc_bad_chunk_inert_partial`: a bad CRC in a critical chunk or in acTL / fcTL / fdAT (any options), or in
+  any chunk with `skip_ancillary_crc_failures = false`, ends the run with `CrcMismatch` and poisons the decoder.
 * `crc_bad_chunk_inert_statement` is FALSE for the code as it is (defect D10: a chunk is parsed when its
   last body byte arrives, before the CRC is compared, and `crc_mismatch_skipped` leaves the decoder
-  otherwise unchanged): `bad_crc_ancillary_contributes`, `crc_bad_chunk_inert_false`.
+  otherwise unchanged): `bad_crc_ancillary_contributes`, `crc_bad_chunk_inert_false`.  D10 remains open for
+  exactly the `Skippable` kinds (`crc_skip_domain`): every ancillary kind other than acTL / fcTL / fdAT.
 * `ignore_crc_inert`, `ignore_crc_acc_unused`: with `ignore_crc` the CRC step does not depend on the four
   CRC bytes (except that `ChunkComplete` reports them) nor on the running CRC — ONE STEP; the lift of the
   byte-independence to whole runs (two streams differing only inside CRC fields) is NOT done.
@@ -25,30 +28,80 @@ particular the real CRC-32) and ARBITRARY decoder values.
 namespace Png.C11
 open Png Png.Framing
 
-/-- **A CRC mismatch is fatal** for a critical chunk (whatever the options) and for every chunk when
-    `skip_ancillary_crc_failures` is off (CRC checking enabled). -/
+/-- the kinds whose CRC mismatch the `skip_ancillary_crc_failures` option skips: ancillary, and not one of the
+    animation chunks acTL / fcTL / fdAT (which have been acted on already: `stream.rs:917-921`) -/
+def Skippable (t : ChunkType) : Prop := isCritical t = false ∧ t ≠ acTL ∧ t ≠ fcTL ∧ t ≠ fdAT
+
+instance (t : ChunkType) : Decidable (Skippable t) := by unfold Skippable; infer_instance
+
+/-- **The outcome of a CRC mismatch** (CRC checking enabled): skipped exactly when the option is on and the kind is
+    `Skippable`; in every other case `CrcMismatch` -/
+theorem crc_mismatch_outcome (cfg : Cfg) (d : Dec) (t : ChunkType) (b0 b1 b2 b3 : UInt8)
+    (hig : d.opts.ignoreCrc = false) (hbad : be32 b0 b1 b2 b3 ≠ cfg.crc d.crcAcc) :
+    parseU32 cfg d (.crc t) b0 b1 b2 b3 =
+      if d.opts.skipAncillaryCrcFailures = true ∧ Skippable t then
+        .ok (.nothing, { d with state := some (.u32 .length []) })
+      else .error (.format "CrcMismatch") := by
+  rw [parseU32_crc]
+  simp only [hig, Bool.false_eq_true, if_false]
+  rw [if_neg hbad]
+  by_cases hc : d.opts.skipAncillaryCrcFailures = true ∧ Skippable t
+  · rw [if_pos hc, if_pos ⟨hc.1, by simp [hc.2.1], hc.2.2⟩]
+  · rw [if_neg hc, if_neg]
+    rintro ⟨h1, h2, h3⟩
+    exact hc ⟨h1, by simpa using h2, h3⟩
+
+/-- **A CRC mismatch is fatal** for a critical chunk and for acTL / fcTL / fdAT (whatever the options), and for every
+    chunk when `skip_ancillary_crc_failures` is off (CRC checking enabled). -/
 theorem crc_mismatch_fatal (cfg : Cfg) (d : Dec) (t : ChunkType) (b0 b1 b2 b3 : UInt8)
     (hig : d.opts.ignoreCrc = false) (hbad : be32 b0 b1 b2 b3 ≠ cfg.crc d.crcAcc)
-    (hcrit : isCritical t = true ∨ d.opts.skipAncillaryCrcFailures = false) :
+    (hcrit : isCritical t = true ∨ d.opts.skipAncillaryCrcFailures = false ∨ t = acTL ∨ t = fcTL ∨ t = fdAT) :
     parseU32 cfg d (.crc t) b0 b1 b2 b3 = .error (.format "CrcMismatch") := by
-  rw [parseU32_crc]
-  simp only [hig, Bool.false_eq_true, if_false]
-  rw [if_neg hbad, if_neg]
-  rintro ⟨h1, h2⟩
-  rcases hcrit with h | h
-  · simp [h] at h2
+  rw [crc_mismatch_outcome cfg d t b0 b1 b2 b3 hig hbad, if_neg]
+  rintro ⟨h1, h2, h3, h4, h5⟩
+  rcases hcrit with h | h | h | h | h
+  · rw [h] at h2; cases h2
   · rw [h] at h1; cases h1
+  · exact h3 h
+  · exact h4 h
+  · exact h5 h
 
-/-- **An ancillary chunk with a bad CRC is "skipped"**: `Ok(Nothing)`, and the decoder is UNCHANGED except
+/-- **The animation chunks are never skipped**: with the default `skip_ancillary_crc_failures = true` a CRC mismatch
+    on acTL, fcTL or fdAT is `CrcMismatch` (and poisons the decoder: `crc_error_poisons`,
+    `crc_bad_chunk_inert_partial`) — repaired in d89703f; before, a corrupted fdAT was decoded into a frame -/
+theorem crc_mismatch_animation_fatal (cfg : Cfg) (d : Dec) (t : ChunkType) (b0 b1 b2 b3 : UInt8)
+    (hig : d.opts.ignoreCrc = false) (hbad : be32 b0 b1 b2 b3 ≠ cfg.crc d.crcAcc)
+    (ht : t = acTL ∨ t = fcTL ∨ t = fdAT) :
+    parseU32 cfg d (.crc t) b0 b1 b2 b3 = .error (.format "CrcMismatch") :=
+  crc_mismatch_fatal cfg d t b0 b1 b2 b3 hig hbad (Or.inr (Or.inr ht))
+
+/-- **A `Skippable` ancillary chunk with a bad CRC is "skipped"**: `Ok(Nothing)`, and the decoder is UNCHANGED except
     that the state moves on to the next chunk — whatever the chunk's parser did when the last body
-    byte arrived stays in place (this is defect D10). -/
+    byte arrived stays in place (this is defect D10, which remains open for exactly these kinds). -/
 theorem crc_mismatch_skipped (cfg : Cfg) (d : Dec) (t : ChunkType) (b0 b1 b2 b3 : UInt8)
     (hig : d.opts.ignoreCrc = false) (hbad : be32 b0 b1 b2 b3 ≠ cfg.crc d.crcAcc)
-    (hskip : d.opts.skipAncillaryCrcFailures = true) (hanc : isCritical t = false) :
+    (hskip : d.opts.skipAncillaryCrcFailures = true) (hanc : Skippable t) :
     parseU32 cfg d (.crc t) b0 b1 b2 b3 = .ok (.nothing, { d with state := some (.u32 .length []) }) := by
-  rw [parseU32_crc]
-  simp only [hig, Bool.false_eq_true, if_false]
-  rw [if_neg hbad, if_pos ⟨hskip, by simp [hanc]⟩]
+  rw [crc_mismatch_outcome cfg d t b0 b1 b2 b3 hig hbad, if_pos ⟨hskip, hanc⟩]
+
+/-- **Which kinds remain affected by D10**: a chunk whose stored CRC does not match survives the CRC step (no error)
+    iff the skip option is on and the kind is ancillary and none of acTL / fcTL / fdAT — for every known ancillary
+    kind other than these three (gAMA, cHRM, sRGB, iCCP, pHYs, sBIT, bKGD, tRNS, cICP, mDCV, cLLI, eXIf, tEXt, zTXt, iTXt)
+    and for every unknown ancillary type -/
+theorem crc_skip_domain (cfg : Cfg) (d : Dec) (t : ChunkType) (b0 b1 b2 b3 : UInt8)
+    (hig : d.opts.ignoreCrc = false) (hbad : be32 b0 b1 b2 b3 ≠ cfg.crc d.crcAcc) :
+    ((∃ r, parseU32 cfg d (.crc t) b0 b1 b2 b3 = .ok r) ↔ d.opts.skipAncillaryCrcFailures = true ∧ Skippable t) ∧
+    (∀ t' ∈ [gAMA, cHRM, sRGB, iCCP, pHYs, sBIT, bKGD, tRNS, cICP, mDCV, cLLI, eXIf, tEXt, zTXt, iTXt], Skippable t') ∧
+    ¬ Skippable acTL ∧ ¬ Skippable fcTL ∧ ¬ Skippable fdAT ∧ ¬ Skippable IHDR ∧ ¬ Skippable PLTE ∧ ¬ Skippable IDAT ∧
+    ¬ Skippable IEND := by
+  refine ⟨?_, by decide, by decide, by decide, by decide, by decide, by decide, by decide, by decide⟩
+  rw [crc_mismatch_outcome cfg d t b0 b1 b2 b3 hig hbad]
+  constructor
+  · rintro ⟨r, hr⟩
+    split at hr
+    · assumption
+    · cases hr
+  · intro h; rw [if_pos h]; exact ⟨_, rfl⟩
 
 /-- a matching CRC: `ChunkComplete` (or `ImageEnd` for IEND, which finishes the decoder) -/
 theorem crc_match_accepted (cfg : Cfg) (d : Dec) (t : ChunkType) (b0 b1 b2 b3 : UInt8)
@@ -91,14 +144,14 @@ theorem crc_compares_type_and_body (d : Dec) (t : ChunkType) (acc : Bytes) (hinv
   · exact absurd h.1 h2
 
 /-- **Partial inertness (what holds today)**: at the CRC field of a chunk, with CRC checking enabled, a
-    stored CRC that differs from the running CRC — for a critical chunk under any options, or for any
-    chunk under `skip_ancillary_crc_failures = false` — ends the run with `CrcMismatch`; the decoder is
-    poisoned; nothing after the chunk is looked at. -/
+    stored CRC that differs from the running CRC — for a critical chunk and for acTL / fcTL / fdAT under any
+    options (so under the DEFAULT options too), or for any chunk under `skip_ancillary_crc_failures = false` —
+    ends the run with `CrcMismatch`; the decoder is poisoned; nothing after the chunk is looked at. -/
 theorem crc_bad_chunk_inert_partial (cfg : Cfg) (d : Dec) (t : ChunkType) (acc buf : Bytes) (b0 b1 b2 b3 : UInt8)
     (hs : d.state = some (.u32 (.crc t) acc)) (hbuf : buf ≠ [])
     (hcrc : acc ++ buf.take (4 - acc.length) = [b0, b1, b2, b3])
     (hig : d.opts.ignoreCrc = false) (hbad : be32 b0 b1 b2 b3 ≠ cfg.crc d.crcAcc)
-    (hcrit : isCritical t = true ∨ d.opts.skipAncillaryCrcFailures = false) :
+    (hcrit : isCritical t = true ∨ d.opts.skipAncillaryCrcFailures = false ∨ t = acTL ∨ t = fcTL ∨ t = fdAT) :
     runF cfg d buf = (d.withState none, [], some (.format "CrcMismatch")) ∧
     (update cfg d buf).2 = .error (.format "CrcMismatch") ∧ (update cfg d buf).1.state = none := by
   have hstep : nextState cfg d (.u32 (.crc t) acc) buf = .error (.format "CrcMismatch") := by
@@ -109,19 +162,18 @@ theorem crc_bad_chunk_inert_partial (cfg : Cfg) (d : Dec) (t : ChunkType) (acc b
   rw [update_error_of_step hs hbuf hstep]
   exact ⟨rfl, rfl⟩
 
-/-- the same from a new decoder: if the run over `pre` (no error) stops inside the CRC field of a
-    buffered chunk `t` (having read `acc`, the first bytes of the field) whose stored CRC differs from
-    the CRC of `type bytes ++ body`, and the chunk is critical or `skip_ancillary_crc_failures` is
-    off, then the run over the whole stream fails with `CrcMismatch`, whatever follows
-    (`cfg.InflateOk` is needed only to split the run at `pre`). -/
-theorem crc_bad_chunk_fails_run (cfg : Cfg) (hI : cfg.InflateOk) (opts : Options) (pre rest acc : Bytes) (t : ChunkType)
-    (b0 b1 b2 b3 : UInt8) (hig : opts.ignoreCrc = false)
+/-- the same from a new decoder, for ANY chunk kind (data chunks included): if the run over `pre` (no error) stops
+    inside the CRC field of a chunk `t` (having read `acc`, the first bytes of the field) whose stored CRC differs
+    from the running CRC, and the chunk is critical, or one of acTL / fcTL / fdAT, or
+    `skip_ancillary_crc_failures` is off, then the run over the whole stream fails with `CrcMismatch`,
+    whatever follows (`cfg.InflateOk` is needed only to split the run at `pre`). -/
+theorem crc_bad_chunk_fails_run_acc (cfg : Cfg) (hI : cfg.InflateOk) (opts : Options) (pre rest acc : Bytes)
+    (t : ChunkType) (b0 b1 b2 b3 : UInt8) (hig : opts.ignoreCrc = false)
     (hpre : (runF cfg (Dec.new opts) pre).2.2 = none)
     (hs : (runF cfg (Dec.new opts) pre).1.state = some (.u32 (.crc t) acc))
     (hrest : rest ≠ []) (hcrc : acc ++ rest.take (4 - acc.length) = [b0, b1, b2, b3])
-    (h1 : t ≠ IDAT) (h2 : t ≠ fdAT)
-    (hbad : be32 b0 b1 b2 b3 ≠ cfg.crc (typeBytes t ++ (runF cfg (Dec.new opts) pre).1.raw))
-    (hcrit : isCritical t = true ∨ opts.skipAncillaryCrcFailures = false) :
+    (hbad : be32 b0 b1 b2 b3 ≠ cfg.crc (runF cfg (Dec.new opts) pre).1.crcAcc)
+    (hcrit : isCritical t = true ∨ opts.skipAncillaryCrcFailures = false ∨ t = acTL ∨ t = fcTL ∨ t = fdAT) :
     (runF cfg (Dec.new opts) (pre ++ rest)).2.2 = some (.format "CrcMismatch") := by
   have hsplit := runF_append cfg hI (Dec.new opts) pre rest
   have herr := congrArg (fun r : Res => r.2.2) hsplit
@@ -134,13 +186,31 @@ theorem crc_bad_chunk_fails_run (cfg : Cfg) (hI : cfg.InflateOk) (opts : Options
   have hfr : d1.opts = opts := by
     have := (runF_stepFrame cfg (Dec.new opts) pre).opts
     rw [hr] at this; exact this
-  have hinv : CrcInv d1 := by
-    have : CrcInv (runF cfg (Dec.new opts) pre).1 := run_crcInv cfg _ _ _ (crcInv_new opts)
-    rw [hr] at this; exact this
-  have hacc := crc_compares_type_and_body d1 t acc hinv hs (hfr ▸ hig) h1 h2
-  have := (crc_bad_chunk_inert_partial cfg d1 t acc rest b0 b1 b2 b3 hs hrest hcrc (hfr ▸ hig) (hacc ▸ hbad)
-    (hfr ▸ hcrit)).1
+  have := (crc_bad_chunk_inert_partial cfg d1 t acc rest b0 b1 b2 b3 hs hrest hcrc (hfr ▸ hig) hbad (hfr ▸ hcrit)).1
   simp only [Res.bind, this]
+
+/-- for a buffered chunk the running CRC is the CRC of `type bytes ++ body` (`crc_covers_type_and_data`): the stored
+    CRC of a critical chunk, of acTL or fcTL (any options), or of any buffered chunk with the skip option off,
+    that differs from the CRC of `type bytes ++ body` fails the run -/
+theorem crc_bad_chunk_fails_run (cfg : Cfg) (hI : cfg.InflateOk) (opts : Options) (pre rest acc : Bytes) (t : ChunkType)
+    (b0 b1 b2 b3 : UInt8) (hig : opts.ignoreCrc = false)
+    (hpre : (runF cfg (Dec.new opts) pre).2.2 = none)
+    (hs : (runF cfg (Dec.new opts) pre).1.state = some (.u32 (.crc t) acc))
+    (hrest : rest ≠ []) (hcrc : acc ++ rest.take (4 - acc.length) = [b0, b1, b2, b3])
+    (h1 : t ≠ IDAT) (h2 : t ≠ fdAT)
+    (hbad : be32 b0 b1 b2 b3 ≠ cfg.crc (typeBytes t ++ (runF cfg (Dec.new opts) pre).1.raw))
+    (hcrit : isCritical t = true ∨ opts.skipAncillaryCrcFailures = false ∨ t = acTL ∨ t = fcTL) :
+    (runF cfg (Dec.new opts) (pre ++ rest)).2.2 = some (.format "CrcMismatch") := by
+  have hfr : (runF cfg (Dec.new opts) pre).1.opts = opts := (runF_stepFrame cfg (Dec.new opts) pre).opts
+  have hinv : CrcInv (runF cfg (Dec.new opts) pre).1 := run_crcInv cfg _ _ _ (crcInv_new opts)
+  have hig' : (runF cfg (Dec.new opts) pre).1.opts.ignoreCrc = false := by rw [hfr]; exact hig
+  have hacc := crc_compares_type_and_body _ t acc hinv hs hig' h1 h2
+  refine crc_bad_chunk_fails_run_acc cfg hI opts pre rest acc t b0 b1 b2 b3 hig hpre hs hrest hcrc (hacc ▸ hbad) ?_
+  rcases hcrit with h | h | h | h
+  · exact Or.inl h
+  · exact Or.inr (Or.inl h)
+  · exact Or.inr (Or.inr (Or.inl h))
+  · exact Or.inr (Or.inr (Or.inr (Or.inl h)))
 
 /-! ## `ignore_crc` -/
 
@@ -279,6 +349,29 @@ example :
 example :
     (runF toyCfg (Dec.new { ignoreCrc := true }) (sig ++ ihdr ++ gamaBad)).2.2 = none ∧
     (runF toyCfg (Dec.new { ignoreCrc := true }) (sig ++ ihdr ++ gamaBad)).2.1.getLast? = some (.chunkComplete 1 gAMA) := by
+  decide +kernel
+
+
+/-- animation chunks under the DEFAULT options: an fcTL and an fdAT with a wrong stored CRC are `CrcMismatch`
+    (before d89703f both were skipped after having taken effect); with the right CRC the stream decodes -/
+example :
+    let fc := chunkBytes fcTL (encodeFctl { seq := 0, width := 1, height := 1, x := 0, y := 0, delayNum := 1, delayDen := 1,
+                                            dispose := 0, blend := 0 })
+    (runF toyCfg (Dec.new {}) (sig ++ ihdr ++ fc [0, 0, 0, 1])).2.2 = some (.format "CrcMismatch") ∧
+    (runF toyCfg (Dec.new {}) (sig ++ ihdr ++ fc [0, 0, 0, 0] ++ chunkBytes fdAT [0, 0, 0, 1, 2, 7, 9] [0, 0, 0, 5])).2.2 =
+      some (.format "CrcMismatch") ∧
+    (runF toyCfg (Dec.new {}) (sig ++ ihdr ++ chunkBytes acTL [0, 0, 0, 1, 0, 0, 0, 0] [9, 0, 0, 0])).2.2 =
+      some (.format "CrcMismatch") ∧
+    (runF toyCfg (Dec.new {}) (sig ++ ihdr ++ fc [0, 0, 0, 0] ++ chunkBytes fdAT [0, 0, 0, 1, 2, 7, 9] [0, 0, 0, 0] ++ iend)).2.2 =
+      none := by
+  decide +kernel
+
+/-- D10 remains for the other ancillary kinds, e.g. a tEXt and a tRNS chunk with a wrong stored CRC still contribute -/
+example :
+    (runF toyCfg (Dec.new {}) (sig ++ ihdr ++ chunkBytes tEXt [97, 0, 98] [0, 0, 0, 1])).2.2 = none ∧
+    ((runF toyCfg (Dec.new {}) (sig ++ ihdr ++ chunkBytes tEXt [97, 0, 98] [0, 0, 0, 1])).1.info.map (·.text)) =
+      some [.tEXt [97] [98]] ∧
+    ((runF toyCfg (Dec.new {}) (sig ++ ihdr ++ chunkBytes tRNS [0, 5] [0, 0, 0, 1])).1.info.bind (·.trns)) = some [5] := by
   decide +kernel
 
 end examples
